@@ -164,7 +164,7 @@ func (e *Enc) call(fr *Frame, instr ssa.Instruction, c *ssa.CallCommon, _ types.
 	} else if fr.isTop {
 		e.recordRet(cs, nil)
 	}
-	if fr.isTop {
+	if fr.isTop || e.definedIn(fr.fn, e.fn) {
 		if k := "ghost:called:" + cs.name; e.keySorts[k] != "" {
 			e.get(fr.curState, k, SBool)
 			fr.curState.m[k] = True
@@ -1292,7 +1292,7 @@ func sortedModKeys(m map[string]bool) []string {
 
 // clauseInternal: does the clause (through lets) refer to results of the callee's internal calls?
 func clauseInternal(fc *FuncContract, x CExpr, depth int) bool {
-	if cexprMentions(x, "ret") || cexprMentions(x, "retn") {
+	if cexprMentions(x, "ret") || cexprMentions(x, "retn") || cexprMentions(x, "called") {
 		return true
 	}
 	if depth > 6 {
